@@ -15,8 +15,12 @@ from .interp_stmts import VSetTerm, spec_text
 
 
 class Loop:
-    def __init__(self, invariant=(), variant=None, modifies=(), locals=None, on_bind=None, progress=()):
+    def __init__(self, invariant=(), variant=None, modifies=(), locals=None, on_bind=None, progress=(), header=None):
         self.on_bind = on_bind
+        # optional fingerprint of the loop this contract is about: a substring of its header (`while <test>` / `for <target> in <iter>`).  A contract
+        # with a fingerprint is never applied to a loop whose header does not contain it (undecided instead), and follows its loop when the loop
+        # moves - to another position in the function, or into a helper the function calls
+        self.header = header
         self.progress = list(progress)     # clauses over (iteration start, back edge): a well-founded measure decreased
         self.step = []                     # clauses relating iteration start and back edge (transition relation), kind 'step'
         self.invariant = list(invariant)
@@ -516,6 +520,9 @@ class VExec(Exec):
             if isinstance(o, VAbs):
                 return ('absobj', o, tree.attr)
         if isinstance(tree, ast.Name):
+            if tree.id not in env:
+                # the contract names a local that this shape of the function does not have: undecided, never an engine failure
+                raise Undecided(f'location {loc}: the function has no local of that name (any more)')
             v = env[tree.id]
             if isinstance(v, VRef):
                 return ('obj', v.addr)
